@@ -222,3 +222,13 @@ def u_b_true(ctx):
         e.prove(tag + ":canary:phenotype-is-the-breeding-value", R(df.iloc[0, len(lab)]) == R(B[0, 0]) if ok else False, expect="fail", timeout_ms=2000)
         return "ok"
     modeb.run_shapes(ctx, "true", [(1, 1, False), (2, 2, True), (3, 1, True), (2, 1, False)], body)
+
+
+# the "true value" protocols are thin wrappers over the bound model: the breeding-value one is under contract in C04's file
+from contracts import C04 as _c04
+
+
+@unit(P, "A1[TrueBreedingValue.estimate hands out the bound model's gebv of the given genotypes, never its phenotype argument]", "A1",
+      targets=[_c04.TBV + ":TrueBreedingValue.estimate"])
+def u_true_bv(ctx):
+    return _c04.u_true_bv(ctx)
